@@ -239,14 +239,20 @@ type observer struct {
 	nOnDemand int
 	nVisits   int
 	maxSnaps  int
+	large     bool
 }
 
 func (o *observer) snap(tag string) {
-	if o.st == nil || len(o.snaps) >= o.maxSnaps {
+	if o.st == nil || (len(o.snaps) >= o.maxSnaps && tag != "end") {
 		return
 	}
 	id := fmt.Sprintf("%s#%d:%s", o.name, len(o.snaps), tag)
 	s, kinds := dump(id, o.st)
+	if strings.Count(s, "\nout\t") > 3500 && o.maxSnaps > 5 {
+		// a large graph: keep the eager, linked and final observation points (+ two in between)
+		o.maxSnaps = 5
+		o.large = true
+	}
 	o.snaps = append(o.snaps, s)
 	o.ids = append(o.ids, id)
 	for k, v := range kinds {
@@ -425,9 +431,10 @@ func main() {
 	inputs = append(inputs, input{name: "corpus/F10_two_results_one_argument/backtrace", dir: cdir, yaml: backYAML(false), back: true, replay: f10Program, corpus: true})
 
 	// generated programs
+	// many small programs rather than few large ones: the oracle evaluates the (quadratic) Lean definition
 	nProg, nCases := 3, 36
 	if lib.Thorough() {
-		nProg, nCases = 14, 60
+		nProg, nCases = 30, 24
 	}
 	for k := 0; k < nProg; k++ {
 		dir := lib.WorkDir(prop, fmt.Sprintf("mugo%d", k))
